@@ -145,7 +145,7 @@ def find_quantiles(
         _description_
     """
     return list(
-        sort(
+        unique(  # sorted, without the duplicated cuts that heavy ties can produce
             np_find_quantiles(
                 df_feature[~isnan(df_feature)],  # getting rid of missing values
                 q,
